@@ -116,6 +116,13 @@ func New(opts *Options) (*NSQD, error) {
 		return nil, errors.New("--node-id must be [0,1024)")
 	}
 
+	if opts.MsgTimeout > opts.MaxMsgTimeout {
+		// max-msg-timeout bounds every message timeout, the default one included
+		n.logf(LOG_WARN, "--msg-timeout (%s) exceeds --max-msg-timeout (%s), using %s",
+			opts.MsgTimeout, opts.MaxMsgTimeout, opts.MaxMsgTimeout)
+		opts.MsgTimeout = opts.MaxMsgTimeout
+	}
+
 	if opts.TLSClientAuthPolicy != "" && opts.TLSRequired == TLSNotRequired {
 		opts.TLSRequired = TLSRequired
 	}
